@@ -90,6 +90,16 @@ func genRegions(t *rapid.T, sectors int) []refcrypt.Region {
 			pts[len(pts)-1] = pts[len(pts)-2] + 1
 		}
 	}
+	if rapid.IntRange(0, 5).Draw(t, "far-beyond") == 0 {
+		// the last plain region far behind the file, up to the largest sector numbers the map can hold: everything
+		// from the previous region's end to the end of the file is then encrypted
+		st := rapid.SampledFrom([]int{1<<31 - 2, 1<<31 - 1, 1 << 31, 1<<31 + 5, 0xFFFFFFF0, 0xFFFFFFFE}).Draw(t, "far-start")
+		pts[len(pts)-2] = st
+		pts[len(pts)-1] = st + 1 + rapid.IntRange(0, 1).Draw(t, "far-len")*(0xFFFFFFFF-st-1)
+		if pts[len(pts)-1] > 0xFFFFFFFF {
+			pts[len(pts)-1] = 0xFFFFFFFF
+		}
+	}
 	rs := make([]refcrypt.Region, n)
 	for i := range rs {
 		rs[i] = refcrypt.Region{Start: uint32(pts[2*i]), End: uint32(pts[2*i+1])}
